@@ -1,20 +1,20 @@
 SPECIFICATION Spec
 CONSTANTS
   Threads = {1, 2, 3}
-  Prog <- ProgRsv2
+  Prog <- ProgRt2
   HashOf <- HashId
   InitKeys <- Init1
   N0 = 2
   DCAP = 2
-  MaxNodes = 10
-  MaxTabs = 3
-  STRIDE = 4
+  MaxNodes = 8
+  MaxTabs = 2
+  STRIDE = 1
   MAXRES = 100
   STAMPCHECK = TRUE
   ACSTAMPCHECK = TRUE
   TRAVOFF = 0
   RETAINCHECK = TRUE
-INVARIANTS Linearizable NoDeadlock ResizeSafe QuiescentOK ReadersNeverBlock IterWeak GhostOK
+INVARIANTS RetainOK Linearizable NoDeadlock ResizeSafe QuiescentOK ReadersNeverBlock IterWeak GhostOK
 PROPERTY NeverShrinks
 VIEW view
 CHECK_DEADLOCK FALSE
